@@ -6,3 +6,8 @@ import "github.com/element-of-surprise/coercion/verifhook"
 // detsel overlay rewrote (see /verif/orch/detsel). The verifhook package exists
 // only in the build overlay, so this module builds only with -overlay.
 func SetDetselHook(f func(int) []int) { verifhook.SetPerm(f) }
+
+// SetYieldHook installs the function called at the scheduling points the overlay
+// inserts before accesses to shared in-memory state of the engine (mutexes,
+// concurrent maps, atomics in internal/execute).
+func SetYieldHook(f func(string)) { verifhook.SetYield(f) }
